@@ -150,10 +150,49 @@ def run(ctx):
     c08.source_symbol_rule(ctx, r8)
     from . import c07
     c07.z_range_rule(ctx, ctx.rule("C01.R10", c07.Z_TEXT, "E4 range of the written value vs the reader's refusal (shared with C07.R5)"))
+    registry_forget_rule(ctx, ctx.rule("C01.R13", FORGET_TEXT, "WMC over objects_completed + DOM"))
     from . import c03
     c03.byte_accounting(ctx, ctx.rule("C01.R6", c03.BYTES_TEXT, "WWF + value shape + DOM"))
     metadata_flow_receiver(ctx, ctx.rule("C01.R4r", "receiver: each metadata field of ObjectReceiver assigned in attach_fdt "
                                                     "derives from the FDT File entry, and create_meta hands each one to the writer", "ARG/DEP"))
+
+
+FORGET_TEXT = ("exactly one copy under receive-once: an entry of Receiver.objects_completed (the registry push_obj consults to suppress a second "
+               "delivery) is dropped only by push_obj's own restart arm (decided by C01.R7) or by a collection that is conditioned on the FDT "
+               "instance being a complete list (Full-FDT attribute) or on the entry's expiry - an FDT of publish mode ObjectsBeingTransferred "
+               "lists only the objects in transfer, dropping what it does not list forgets an object between two of its transfers")
+
+FORGETTERS = ("retain", "remove", "remove_entry", "clear", "pop_first", "pop_last", "split_off", "extract_if", "drain", "take", "replace")
+
+
+def registry_forget_rule(ctx, rule):
+    prog = ctx.prog
+    RCV = "receiver::receiver::Receiver"
+    sites = [s for (s, ai, mut) in calls_on_field(prog, RCV, "objects_completed") if method_name(s) in FORGETTERS and not s.func.derived]
+    if not sites:
+        raise model.AnchorMissing("no call removes entries of Receiver.objects_completed (push_obj's restart arm expected)")
+    seen = set()
+    flows = {}
+    for s in sites:
+        host = s.func.root().path.split("::")[-1]
+        key = "%s: objects_completed.%s" % (host, method_name(s))
+        if key in seen:
+            continue
+        seen.add(key)
+        ctx.analysed(s.func.path)
+        if host == "push_obj":
+            rule.ok(key, "the restart arm of push_obj (its scenarios are decided by C01.R7)", s.loc)
+            continue
+        fl = flows.setdefault(s.func.path, Flow(s.body))
+        txt = " ".join(show(a[1], 300) + " " + (show(a[2], 300) if len(a) > 2 and not isinstance(a[2], str) else str(a[2]) if len(a) > 2 else "")
+                       for (a, t_) in fl.facts_at(s.bb))
+        if re.search(r"full_fdt|expire|is_expired", txt):
+            rule.ok(key, "conditioned on %s" % re.search(r"full_fdt|expire|is_expired", txt).group(0), s.loc)
+        else:
+            rule.violation(key, "entries the current FDT instance does not list are dropped without a test that the instance is a complete list "
+                                "(Full-FDT) or that the entry expired: with publish mode ObjectsBeingTransferred an object sent twice is forgotten "
+                                "when another object's FDT instance arrives in between, and delivered a second time despite receive-once", s.loc)
+    rule.floor(2, "calls that drop entries of objects_completed")
 
 
 SENDER_FLOW_TEXT = ("sender: every metadata field of the FDT File entry derives from the corresponding field of the "
